@@ -26,7 +26,15 @@ type Spec struct {
 
 // DFA constructs a deterministic finite automaton (DFA)
 // for recognizing all terminal symbols (tokens) in the grammar of the spec.
-func (s *Spec) DFA() (*auto.DFA, map[grammar.Terminal][]auto.State, error) {
+func (s *Spec) DFA() (dfa *auto.DFA, terminals map[grammar.Terminal][]auto.State, err error) {
+	// Combining the automata crashes in the automata library when more than 64 states in a row have a single successor
+	// (a keyword of 65 characters, a{65}).
+	defer func() {
+		if r := recover(); r != nil {
+			dfa, terminals, err = nil, nil, fmt.Errorf("error on building the lexer automaton:\ninternal error: %v", r)
+		}
+	}()
+
 	errs := &errors.MultiError{
 		Format: errors.BulletErrorFormat,
 	}
